@@ -32,6 +32,19 @@ def run(m: Model, r: Report, tier: str) -> None:
            "end of the scan, included)", floor=3)
     from sa.uds_rules import range_helpers_rule
     range_helpers_rule(m, r, "R10")
+    # every requested session is scanned: the scan of a session is not the right-hand side of a short-circuit on the outcome of earlier sessions
+    n_ps = 0
+    for q_ in (f"{SVC}.ServicesScanner.main", "gallia.commands.scan.uds.identifiers.ScanIdentifiers.main"):
+        fm_ = m.require_function(q_)
+        for c_ in ast.walk(fm_.node):
+            if isinstance(c_, ast.Call) and ast.unparse(c_.func) == "self.perform_scan":
+                n_ps += 1
+                lazy = [b_ for b_ in ast.walk(fm_.node) if isinstance(b_, ast.BoolOp) and any(any(x is c_ for x in ast.walk(v_)) for v_ in b_.values[1:])]
+                lazy += [b_ for b_ in ast.walk(fm_.node) if isinstance(b_, ast.IfExp) and any(x is c_ for v_ in (b_.body, b_.orelse) for x in ast.walk(v_))]
+                r.check(not lazy, "R5", f"{q_}#scan-unconditional@{c_.lineno - fm_.node.lineno}", f"`{ast.unparse(lazy[0])[:80] if lazy else ''}` evaluates perform_scan only while "
+                        "the left operand holds: after one session was aborted, every later session is entered, reported as 'complete' and left without a single probe", loc=fm_.loc)
+    if n_ps < 3:
+        raise AnalysisError(f"only {n_ps} perform_scan call sites found in the scanners' main()")
     r.rule("R11", "a reply is attributed to the probe it answers: the service scanner sends raw requests, and parse_pdu refuses a stale reply (positive or negative) that "
            "names another service instead of counting it for the current probe", floor=1)
     from sa.uds_rules import parse_pdu_request_consistency
